@@ -803,7 +803,7 @@ type SpanSpec struct {
 	Name    string      `json:"name"` // hex
 	Start   uint64      `json:"start"`
 	End     uint64      `json:"end"`
-	Attrs   [][3]string `json:"attrs"` // hex key, kind (s,b,i,d,y), hex/decimal value
+	Attrs   [][3]string `json:"attrs"` // hex key, kind (s,b,i,d,y), hex/decimal value; kinds u a k (n: no value at all) see genNested
 	Events  [][2]string `json:"events"`
 	Status  int         `json:"status"` // 0 none, 1 ok, 2 error with message
 }
@@ -824,6 +824,182 @@ type JSpan struct {
 	Status []string    `json:"status"` // empty: nil; else decimal code, hex message
 }
 
+// Nested attribute values (array, key-value list, no oneof) travel as a flat list of tokens, every token hex, in the
+// grammar take_oval of model/JsonStream.v decodes:
+//
+//	V ::= kind payload        kind s, y: the bytes; b: true / false; i: decimal; d: decimal math.Float64bits; u (oneof not
+//	                          set), n (no AnyValue at all: only as the value of a pair): empty payload
+//	    | "a" count V*        AnyValue_ArrayValue
+//	    | "k" count (key V)*  AnyValue_KvlistValue
+//
+// An attribute [3]string of such a kind holds the first token (unhexed) in [1] and the others, joined by spaces, in [2].
+type tokw struct{ toks []string }
+
+func (w *tokw) put(s ...string) {
+	for _, x := range s {
+		w.toks = append(w.toks, hx.Hex(x))
+	}
+}
+
+var nestedDoubles = []float64{math.Copysign(0, -1), 1e-6, 9.999999999999999e-7, 1e21, 9.999999999999999e20, 1e-7, 2.5e-9, 1e-9, 1.5e300, 123456789.125, 0.1,
+	math.NaN(), math.Inf(1), math.Inf(-1)} // the last three make json.Marshal fail
+
+// genNested: depth 1 is the attribute value itself (only the forms of the default: branch), below it every kind
+func genNested(r *rand.Rand, w *tokw, depth int, pairValue bool) {
+	k := 5 + r.Intn(4) // u a k, and n: a KeyValue without value (read like the unset oneof since the repair of SpanToJSONSpan)
+	if depth > 1 {
+		k = r.Intn(9)
+		if k == 8 {
+			k = 4
+		}
+		if pairValue && r.Intn(5) == 0 {
+			k = 8
+		}
+	}
+	if (k == 6 || k == 7) && (depth > 3 || (depth == 3 && r.Intn(2) == 0)) { // lists down to depth 3, leaves below
+		k = r.Intn(6)
+	}
+	switch k {
+	case 0:
+		w.put("s", genBytes(r))
+	case 1:
+		w.put("y", genBytes(r))
+	case 2:
+		w.put("b", []string{"true", "false"}[r.Intn(2)])
+	case 3:
+		w.put("i", strconv.FormatInt(genTs(r), 10))
+	case 4:
+		f := genVal(r)
+		switch r.Intn(6) {
+		case 0, 1:
+			f = nestedDoubles[r.Intn(len(nestedDoubles))]
+		case 2:
+			f = nestedDoubles[len(nestedDoubles)-1-r.Intn(3)]
+		}
+		w.put("d", strconv.FormatUint(math.Float64bits(f), 10))
+	case 5:
+		w.put("u", "")
+	case 6:
+		n := r.Intn(4)
+		if depth >= 3 {
+			n = r.Intn(3)
+		}
+		w.put("a", strconv.Itoa(n))
+		for ; n > 0; n-- {
+			genNested(r, w, depth+1, false)
+		}
+	case 7:
+		n := r.Intn(4)
+		if depth >= 3 {
+			n = r.Intn(3)
+		}
+		w.put("k", strconv.Itoa(n))
+		for ; n > 0; n-- {
+			key := genKey(r)
+			if r.Intn(6) == 0 {
+				key = ""
+			}
+			w.put(key)
+			genNested(r, w, depth+1, true)
+		}
+	case 8:
+		w.put("n", "")
+	}
+}
+
+// parseAny builds the OTLP value of a token list (nil: kind n) and returns the unread tokens
+func parseAny(toks []string) (*commonv1.AnyValue, []string) {
+	if len(toks) < 2 {
+		panic("nested value: truncated token list")
+	}
+	kind, pay, rest := hx.UnHex(toks[0]), hx.UnHex(toks[1]), toks[2:]
+	v := &commonv1.AnyValue{}
+	switch kind {
+	case "s":
+		v.Value = &commonv1.AnyValue_StringValue{StringValue: pay}
+	case "y":
+		v.Value = &commonv1.AnyValue_BytesValue{BytesValue: append([]byte{}, pay...)} // as decoded from the wire: never nil
+	case "b":
+		v.Value = &commonv1.AnyValue_BoolValue{BoolValue: pay == "true"}
+	case "i":
+		n, _ := strconv.ParseInt(pay, 10, 64)
+		v.Value = &commonv1.AnyValue_IntValue{IntValue: n}
+	case "d":
+		n, _ := strconv.ParseUint(pay, 10, 64)
+		v.Value = &commonv1.AnyValue_DoubleValue{DoubleValue: math.Float64frombits(n)}
+	case "u":
+	case "n":
+		return nil, rest
+	case "a":
+		n, _ := strconv.Atoi(pay)
+		av := &commonv1.ArrayValue{}
+		for ; n > 0; n-- {
+			var x *commonv1.AnyValue
+			x, rest = parseAny(rest)
+			av.Values = append(av.Values, x)
+		}
+		v.Value = &commonv1.AnyValue_ArrayValue{ArrayValue: av}
+	case "k":
+		n, _ := strconv.Atoi(pay)
+		kl := &commonv1.KeyValueList{}
+		for ; n > 0; n-- {
+			p := &commonv1.KeyValue{Key: hx.UnHex(rest[0])}
+			p.Value, rest = parseAny(rest[1:])
+			kl.Values = append(kl.Values, p)
+		}
+		v.Value = &commonv1.AnyValue_KvlistValue{KvlistValue: kl}
+	default:
+		panic("nested value: kind " + kind)
+	}
+	return v, rest
+}
+
+// nestedClass: what the attribute values of the spans exercise beyond the five scalar kinds
+func nestedClass(spans []SpanSpec) string {
+	var arr, kvl, unset, deep, nonfinite, novalue bool
+	var walk func(v *commonv1.AnyValue, depth int)
+	walk = func(v *commonv1.AnyValue, depth int) {
+		if v == nil {
+			novalue = true
+			return
+		}
+		switch x := v.Value.(type) {
+		case *commonv1.AnyValue_DoubleValue:
+			nonfinite = nonfinite || math.IsNaN(x.DoubleValue) || math.IsInf(x.DoubleValue, 0)
+		case *commonv1.AnyValue_ArrayValue:
+			deep = deep || depth > 1
+			for _, e := range x.ArrayValue.Values {
+				walk(e, depth+1)
+			}
+		case *commonv1.AnyValue_KvlistValue:
+			deep = deep || depth > 1
+			for _, e := range x.KvlistValue.Values {
+				walk(e.Value, depth+1)
+			}
+		}
+	}
+	for _, sp := range spans {
+		for _, a := range sp.Attrs {
+			if !strings.Contains("aku", a[1]) {
+				continue
+			}
+			arr, kvl, unset = arr || a[1] == "a", kvl || a[1] == "k", unset || a[1] == "u"
+			v, _ := parseAny(append([]string{hx.Hex(a[1])}, strings.Split(a[2], " ")...))
+			walk(v, 1)
+		}
+	}
+	s := ""
+	for _, x := range []struct {
+		on bool
+		nm string
+	}{{arr, "array"}, {kvl, "kvlist"}, {unset, "unset"}, {deep, "nested"}, {novalue, "pair-without-value"}, {nonfinite, "nonfinite-inside"}} {
+		if x.on {
+			s += "+" + x.nm
+		}
+	}
+	return s
+}
+
 func genSpan(r *rand.Rand) SpanSpec {
 	hexn := func(n int) string {
 		b := make([]byte, n)
@@ -831,6 +1007,8 @@ func genSpan(r *rand.Rand) SpanSpec {
 		return hx.Hex(string(b))
 	}
 	sp := SpanSpec{TraceID: hexn(16), SpanID: hexn(8), Name: hx.Hex(genBytes(r)), Start: uint64(genTs(r)), End: r.Uint64()}
+	subSeed, _ := strconv.ParseUint(sp.TraceID[:15], 16, 64)
+	sub := hx.Rand(int64(subSeed))
 	switch r.Intn(3) {
 	case 0:
 		sp.Parent = hexn(8)
@@ -854,7 +1032,15 @@ func genSpan(r *rand.Rand) SpanSpec {
 		if r.Intn(5) == 0 {
 			key = "service.name"
 		}
-		sp.Attrs = append(sp.Attrs, [3]string{hx.Hex(key), string(kind), v})
+		at := [3]string{hx.Hex(key), string(kind), v}
+		// the default: branch of SpanToJSONSpan: one attribute in three carries an array, a key-value list or an AnyValue
+		// without oneof. Drawn from a generator of their own (seeded by the trace id), the main stream is consumed as before
+		if sub.Intn(3) == 0 {
+			w := &tokw{}
+			genNested(sub, w, 1, false)
+			at[1], at[2] = hx.UnHex(w.toks[0]), strings.Join(w.toks[1:], " ")
+		}
+		sp.Attrs = append(sp.Attrs, at)
 	}
 	for k := r.Intn(3); k > 0; k-- {
 		sp.Events = append(sp.Events, [2]string{strconv.FormatUint(r.Uint64(), 10), hx.Hex(genBytes(r))})
@@ -884,6 +1070,8 @@ func toSpan(sp SpanSpec) *tracev1.Span {
 		case "d":
 			f, _ := strconv.ParseFloat(a[2], 64)
 			kv.Value.Value = &commonv1.AnyValue_DoubleValue{DoubleValue: f}
+		default: // u a k: the default: branch; n: a KeyValue without value (replays only: SpanToJSONSpan dereferences it)
+			kv.Value, _ = parseAny(append([]string{hx.Hex(a[1])}, strings.Split(a[2], " ")...))
 		}
 		res.Attributes = append(res.Attributes, kv)
 	}
@@ -908,6 +1096,7 @@ func genTempoCase(r *rand.Rand, id int, kind string) Case {
 		for i := 0; i < n; i++ {
 			c.Spans = append(c.Spans, genSpan(r))
 		}
+		c.Class += nestedClass(c.Spans)
 		return c
 	}
 	var flat []TraceSpec
